@@ -234,7 +234,15 @@ class Prop(PropBase):
             skw = {"center_freq": 1.4 * u.GHz}
         if st == "IntensitySignal":
             skw = {"center_freq": 1.4 * u.GHz, "chan_bw": 1 * u.MHz}
-        return R.BasebandReader(info["paths"], signal_type=getattr(pb, st), signal_kwargs=skw, lower_sideband=lsb, **kw)
+        # arguments equal to their documented defaults are left out (the defaults are part of the interface)
+        args = dict(signal_type=getattr(pb, st), signal_kwargs=skw, lower_sideband=lsb)
+        if lsb is False:
+            del args["lower_sideband"]
+        if st == "Signal":
+            del args["signal_type"]
+        if not skw:
+            del args["signal_kwargs"]
+        return R.BasebandReader(info["paths"], **args, **kw)
 
     def _twin(self, spec):
         """a second, different reader of the same class, sample shape and dtype (another file with other content, or the
@@ -455,7 +463,32 @@ class Prop(PropBase):
                 r = self._reader(spec, info)
             except Exception as e:
                 return {"ctor_err": type(e).__name__ + ": " + str(e)[:100]}
-            out = {"len": len(r), "shape": list(r.shape), "dtype": str(r.dtype), "rate": X.rat(X.q_value(r.sample_rate, u.Hz)),
+            rej = []
+            if isinstance(r, self.R.BasebandReader) and not isinstance(r, (self.R.GUPPIRawReader, self.R.DADAStokesReader)):
+                # inconsistent constructor arguments are refused (ValueError), never turned into a reader
+                pbm, okw = self.pb, dict(info["open_kwargs"])
+                for lab, kw in (("BasebandSignal with intensity=True", dict(signal_type=pbm.BasebandSignal, intensity=True,
+                                                                          signal_kwargs={"center_freq": 1 * u.GHz})),
+                                ("IntensitySignal with intensity=False", dict(signal_type=pbm.IntensitySignal, intensity=False,
+                                                                              signal_kwargs={"center_freq": 1 * u.GHz, "chan_bw": 1 * u.MHz})),
+                                ("lower_sideband of a wrong shape", dict(lower_sideband=[True, False, True, False, True, False, True])),
+                                ("intensity with a per-channel sideband", dict(signal_type=pbm.IntensitySignal, lower_sideband=[True],
+                                                                               signal_kwargs={"center_freq": 1 * u.GHz, "chan_bw": 1 * u.MHz}))):
+                    try:
+                        self.R.BasebandReader(info["paths"], **kw, **okw)
+                        rej.append(lab + " accepted")
+                    except ValueError:
+                        pass
+                    except Exception as e:      # noqa
+                        rej.append(f"{lab}: {type(e).__name__}")
+                if spec["fmt"] != "stokes":
+                    try:
+                        self.R.DADAStokesReader(info["paths"])
+                        rej.append("DADAStokesReader on a non-Stokes file accepted")
+                    except Exception:
+                        pass
+                mon.take()
+            out = {"ctor_rejects": rej, "len": len(r), "shape": list(r.shape), "dtype": str(r.dtype), "rate": X.rat(X.q_value(r.sample_rate, u.Hz)),
                    "start": X.rat(X.time_offset_s(r.start_time, info["t0"])),
                    "stop": X.rat(X.time_offset_s(r.stop_time, info["t0"])), "ctor_events": self._events(), "ops": []}
             ck = _sha(case)
@@ -767,6 +800,8 @@ class Prop(PropBase):
         np = self.np
         if "ctor_err" in code:
             return f"constructing the reader failed: {code['ctor_err']}"
+        if code.get("ctor_rejects"):
+            return "BasebandReader constructor: " + "; ".join(code["ctor_rejects"])
         spec = case["spec"]
         info = self._file(spec)
         kind, mode, lsbs = self._desc(spec, info)
